@@ -60,7 +60,10 @@ check("C02", "model_checking",
 check("C04", "model_checking",
       "Ledger.tla states NonNeg and BlockIssuance over the whole ledger; MC_Ledger checks the issuance bound and the nonce discipline on "
       "an abstract ledger exhaustively; after every block of seeded histories on real chains the complete committed ledger (every "
-      "account and identity) is logged and TLC evaluates the clauses with exact BigNat limb arithmetic (Trace_Ledger).",
+      "account and identity) is logged and TLC evaluates the clauses with exact BigNat limb arithmetic (Trace_Ledger). Contract stratum: "
+      "an edge cover of the contract lifecycle model (ContractOps.tla, <= 1 deviation per operation, incl. recipient = the contract itself / "
+      "the sender, failed attempt + credit + operation in one block, sandwich blocks, pre-funded creations) is run on the real node and TLC "
+      "evaluates NonNeg and NoMint on every block with contract transactions (Trace_ContractLedger).",
       _CHAIN_NOTE + "; issuance bound per block = BlockReward + FinalCommitteeReward (+ that sum x epoch length on the validation-finished block)",
       "TLA+ ledger spec with exact arithmetic + TLC model of the abstract ledger + TLC trace validation of real histories", "DESIGN.md#c04")
 check("C05", "model_checking",
@@ -68,13 +71,15 @@ check("C05", "model_checking",
       "its inviter and the delegator of a KillDelegator by its pool, evaluated on PRE-state relationships) checked by TLC on every "
       "observed block that carries exactly one transaction and does not finish a validation; the generator aims every tx type at "
       "targets in every relationship to the signer (self, god, pool, own / foreign invitee, own / foreign delegator, stranger, killed, "
-      "undefined).",
+      "undefined). Contract stratum: the same lifecycle edge cover as C04's, judged by OnlySigner over blocks with contract transactions "
+      "(no address that signed nothing in the block, is not the proposer and is not a contract ends with less than it started with plus "
+      "what plain transfers of the block credited to it; Trace_ContractLedger).",
       _CHAIN_NOTE, "TLA+ ledger spec + TLC trace validation of real single-transaction blocks", "DESIGN.md#c05")
 check("C06", "model_checking",
       "MC_Ledger explores include / epoch-change / reorg behaviours of an abstract ledger exhaustively (NoDoubleOnChain, "
       "ConsecutiveOnChain); on real histories TLC evaluates NoDouble, Consecutive, EpochMatch on the transaction lists of every inserted "
       "block (applied set carried by the spec, fork switches remove reverted ids) and requires every crafted block that re-includes an "
-      "applied transaction, carries a foreign-epoch transaction or a nonce gap (transaction commitment recomputed) to be refused by "
+      "applied transaction, carries a foreign-epoch transaction, a nonce gap or a nonce BELOW the next one (the number used last, zero; stale-account senders) to be refused by "
       "every replica.",
       _CHAIN_NOTE, "TLA+ replay/nonce model checked by TLC + TLC trace validation of real histories and crafted replays", "DESIGN.md#c06")
 check("C10", "model_checking",
@@ -269,7 +274,8 @@ check("C15", "model_checking",
       "ReceiptTruthful, OutcomeAgrees, FailLeavesNoTrace, SuccessAppliesAll (+ ReqAgree), GasWithinBought, FeeWithinMax, PaysForItself, "
       "Conserved over exact amounts (BigNatC); TLC checks the bounded envelope model (and that four deliberately broken envelopes violate "
       "it); ContractOps.tla is the operation alphabet over a lifecycle abstraction (every method of the five embedded contracts, the five "
-      "bundled wasm contracts and a hand-assembled 'payer' wasm contract x argument / amount / gas classes x caller role x pair kind) "
+      "bundled wasm contracts and a hand-assembled 'payer' wasm contract x argument classes (incl. recipient = the contract itself / the sender) x "
+      "amount classes x gas classes (incl. maximum fees that are not a whole number of gas units) x caller role x pair kind) "
       "whose transitions TLC exports; each scenario runs on a REAL chain, what the contract code asked for is recorded by shadow "
       "environments (embedded env.Env probe, wasm HostEnv wrapper), and TLC validates every recorded transaction against "
       "Trace_ContractTx on observed pre/post ledgers.",
